@@ -50,6 +50,8 @@ KW = set(KEYWORDS)
 IDENT = re.compile(r"^[A-Za-z_][A-Za-z0-9_$]*$")
 
 
+SEEDED_SCALE = {"quick": 5, "thorough": 10}      # multiplies the run counts of the sampled families in plan()
+
 def plan(tier):
     if tier == "quick":
         return [("ns", 3000), ("clash", 3000), ("convert", 16), ("convert_off", 8)]
